@@ -286,6 +286,54 @@ fn judge_real_thread(case: &GCase) -> Verdict {
     v
 }
 
+
+// ---------------------------------------------------------------------------------------------
+// zippychord dictionaries (the generator of C20) with pauses around zippychord's timers
+
+fn zippy_strategy() -> BoxedStrategy<GCase> {
+    use crate::props::c20::{cfg_text, file_text, mask_keys, C20, CHORD_KEYS};
+    (C20.strategy(Tier::Quick, 0), prop::collection::vec((any::<u16>(), 0usize..6, 0usize..6), 1..7))
+        .prop_map(|(z, steps)| {
+            // deadline and idle-reactivate-time are 500 ms in that configuration
+            let pauses = [5u32, 20, 480, 520, 1100, 10_500];
+            let mut events = vec![];
+            for (sel, p1, p2) in steps {
+                let e = &z.entries[pick(sel, z.entries.len())];
+                // the chords of the entry's path, or a prefix of it
+                let upto = 1 + (sel as usize % e.chords.len());
+                for (j, m) in e.chords.iter().take(upto).enumerate() {
+                    let keys = mask_keys(*m);
+                    for k in &keys {
+                        events.push(Ev::Press(crate::sim::code_of(CHORD_KEYS[*k])));
+                        events.push(Ev::Gap(2));
+                    }
+                    events.push(Ev::Gap(5));
+                    for k in keys.iter().rev() {
+                        events.push(Ev::Release(crate::sim::code_of(CHORD_KEYS[*k])));
+                        events.push(Ev::Gap(2));
+                    }
+                    events.push(Ev::Gap(if j + 1 < upto { 10 } else { pauses[p1] }));
+                }
+                // sometimes a key that is in no chord
+                if sel % 2 == 0 {
+                    events.push(Ev::Press(crate::sim::code_of("x")));
+                    events.push(Ev::Gap(4));
+                    events.push(Ev::Release(crate::sim::code_of("x")));
+                    events.push(Ev::Gap(pauses[p2]));
+                }
+            }
+            GCase {
+                cfg: cfg_text(&z),
+                files: vec![("zippy.txt".to_string(), file_text(&z))],
+                events,
+                loop_emu: true,
+                settle_hint: 1200,
+                features: vec!["zippy".to_string(), "zippy-dictionary".to_string()],
+            }
+        })
+        .boxed()
+}
+
 impl TypedProp for C07 {
     type C = GCase;
     fn id(&self) -> &'static str {
@@ -310,7 +358,7 @@ impl TypedProp for C07 {
             },
             exhaustive: false,
             distinct_by_construction: false,
-            required_classes: vec!["blocked", "blocked-after-timed-structure", "on-idle", "hold-for-duration", "rapid-event-delay>0", "real-thread", "real-thread-with-blocking-pause"],
+            required_classes: vec!["blocked", "blocked-after-timed-structure", "on-idle", "hold-for-duration", "rapid-event-delay>0", "real-thread", "real-thread-with-blocking-pause", "zippy-dictionary"],
             hang_secs: 90,
         }
     }
@@ -318,6 +366,10 @@ impl TypedProp for C07 {
         // one case in 300 runs on the real processing thread (real time: about half a second each)
         if idx % 300 == 299 {
             Gen::Strat(1)
+        } else if idx % 25 == 24 {
+            // zippychord has timers of its own (chord deadline, idle reactivation, contingency
+            // reset): dictionaries with follow-up chords and pauses around those timers
+            Gen::Strat(2)
         } else {
             Gen::Strat(0)
         }
@@ -332,6 +384,9 @@ impl TypedProp for C07 {
     fn strategy(&self, _tier: Tier, key: u32) -> BoxedStrategy<GCase> {
         if key == 1 {
             return real_thread_strategy();
+        }
+        if key == 2 {
+            return zippy_strategy();
         }
         prop::collection::vec(any::<u16>(), 0..600)
             .prop_map(|tape| {
@@ -437,6 +492,9 @@ impl TypedProp for C07 {
                     _ => "switch",
                 });
             }
+        }
+        if case.features.iter().any(|f| f == "zippy-dictionary") {
+            v.classes.push("zippy-dictionary");
         }
         if !case.cfg.contains("rapid-event-delay 0") {
             v.classes.push("rapid-event-delay>0");
